@@ -574,6 +574,43 @@ func TestC12(t *testing.T) {
 		st.Report(t, fc, checkFleet(fc))
 	}
 	st.Exhaustive["same-format fleets: format x compressor"] = len(sweep)
+	// directed shared-configuration fleets: every entry type once with a complete file_info (nothing left to default)
+	// and once without, all five formats concurrently from ONE parsed configuration
+	for v := 0; v < 3; v++ {
+		full := &FileInfoSpec{Owner: "svc", Group: "svc", Mode: 0o750, MTime: 1100000000 + int64(v)}
+		c := &BuildCase{
+			Meta:  Meta{Name: "sharedfleet", Arch: "amd64", Version: "1.0.0", Maintainer: "V <v@example.com>", Description: "d"},
+			MTime: 1000000000, RPMBuildHost: "h",
+			Tree: []FNode{
+				{Rel: "src/t", Kind: "dir", Mode: 0o755, MTime: 900000000},
+				{Rel: "src/t/a", Kind: "file", Size: 40000, Seed: 5 + v, Mode: 0o644, MTime: 900000001},
+				{Rel: "src/t/sub", Kind: "dir", Mode: 0o750, MTime: 900000002},
+				{Rel: "src/t/sub/b", Kind: "file", Size: 9000, Seed: 6 + v, Mode: 0o600, MTime: 900000003},
+				{Rel: "src/f", Kind: "file", Size: 120000, Seed: 7 + v, Mode: 0o644, MTime: 900000004},
+			},
+		}
+		for i, typ := range []string{"dir", "symlink", "ghost", "doc", "file", "config", "tree"} {
+			for j, fi := range []*FileInfoSpec{full, nil} {
+				e := Entry{Type: typ, Dst: fmt.Sprintf("/opt/fleet/%s%d", strings.ReplaceAll(typ, "|", ""), j), FI: fi, Form: "none"}
+				switch typ {
+				case "symlink":
+					e.Src = "/opt/fleet/target"
+				case "doc", "file", "config":
+					e.Src, e.Form = "src/f", "single"
+				case "tree":
+					e.Src, e.Form = "src/t", "tree"
+					if fi != nil {
+						e.FI = &FileInfoSpec{Owner: "svc", Group: "svc", Mode: 0o750}
+					}
+				}
+				_ = i
+				c.Contents = append(c.Contents, e)
+			}
+		}
+		fc := &FleetCase{Case: c, Shared: true, Reps: reps + 2, Workers: append([]string(nil), AllFormats...), Spin: []int{0, 0, 0, 0, 0}}
+		st.Record(fc, true, "directed-shared-fleet")
+		st.Report(t, fc, checkFleet(fc))
+	}
 	rapid.Check(t, func(rt *rapid.T) {
 		c := genRichCase(rt)
 		fc := &FleetCase{Case: c, Shared: rapid.Bool().Draw(rt, "shared"), Reps: reps}
